@@ -293,12 +293,12 @@ func slice(i *interpreter, x, lo, hi, max value) value {
 			return def
 		}
 		if s, ok := v.(symInt); ok {
-			w := s.t.W
 			var inRange *sym.Term
 			if kindSigned(s.k) {
-				inRange = sym.And(sym.Cmp(sym.OpSLe, sym.BV(w, 0), s.t), sym.Cmp(sym.OpSLe, s.t, sym.BV(w, uint64(Cap))))
+				t64 := sym.SExt(s.t, 64)
+				inRange = sym.And(sym.Cmp(sym.OpSLe, sym.BV(64, 0), t64), sym.Cmp(sym.OpSLe, t64, sym.BV(64, uint64(Cap))))
 			} else {
-				inRange = sym.Cmp(sym.OpULe, s.t, sym.BV(w, uint64(Cap)))
+				inRange = sym.Cmp(sym.OpULe, sym.ZExt(s.t, 64), sym.BV(64, uint64(Cap)))
 			}
 			if !i.path.branch(inRange) {
 				panic(runtimeError(fmt.Sprintf("slice bounds out of range [symbolic %s] with capacity %d", what, Cap)))
